@@ -1,3 +1,4 @@
+import os
 from collections import defaultdict
 
 from rpft.logger.logger import get_logger, logging_context
@@ -37,6 +38,15 @@ from rpft.rapidpro.models.nodes import (
 from rpft.rapidpro.models.routers import SwitchRouter
 
 LOGGER = get_logger()
+
+# Instrumentation for the verification harness (/verif): inert unless the environment
+# variable RPFT_VERIF is "1" AND a sink has been installed; observes, never alters.
+_verif_sink = None
+
+
+def _verif_event(name, **data):
+    if _verif_sink is not None and os.environ.get("RPFT_VERIF") == "1":
+        _verif_sink(name, data)
 
 
 def string_to_int_or_float(s):
@@ -361,6 +371,7 @@ class FlowParser:
         return None
 
     def append_node_group(self, new_node_group, row_id):
+        _verif_event("append_group", parser=self, group=new_node_group, row_id=row_id)
         self.current_node_group().add_node_group(new_node_group)
         if row_id:
             self.row_id_to_nodegroup[row_id] = new_node_group
@@ -406,6 +417,7 @@ class FlowParser:
                         if name in self.sheet_parser.context
                     }
                     new_node_group = NodeGroup()
+                    _verif_event("push", parser=self, group=new_node_group)
                     self.node_group_stack.append(new_node_group)
                     # Interpret the row like a no-op to get the edges
                     if not row.is_starting_row():
@@ -419,6 +431,7 @@ class FlowParser:
                     if not row.mainarg_iterlist:
                         # Nothing to iterate over: skip the loop body unevaluated
                         self._parse_block(depth + 1, "for", omit_content=True)
+                    _verif_event("pop", parser=self)
                     self.node_group_stack.pop()
                     self.append_node_group(new_node_group, row.row_id)
                     if row.mainarg_iterlist:
@@ -430,11 +443,13 @@ class FlowParser:
                     self.sheet_parser.remove_bookmark(str(depth))
                 elif row.type == "begin_block":
                     new_node_group = NodeGroup()
+                    _verif_event("push", parser=self, group=new_node_group)
                     self.node_group_stack.append(new_node_group)
                     # Interpret the row like a no-op to get the edges
                     if not row.is_starting_row():
                         self._parse_noop_row(row, store_row_id=False)
                     self._parse_block(depth + 1, "block")
+                    _verif_event("pop", parser=self)
                     self.node_group_stack.pop()
                     self.append_node_group(new_node_group, row.row_id)
                 else:
@@ -720,6 +735,7 @@ class FlowParser:
             )
 
     def _parse_noop_row(self, row, store_row_id=True):
+        _verif_event("noop_row", parser=self, row=row, store_row_id=store_row_id)
         new_node = NoOpNodeGroup()
         for edge in row.edges:
             source_node_group = self._get_node_group_from_edge(edge)
@@ -728,6 +744,7 @@ class FlowParser:
         self.append_node_group(new_node, row.row_id if store_row_id else "")
 
     def _parse_row(self, row):
+        _verif_event("row", parser=self, row=row)
         if not row.include_if:
             return
 
